@@ -54,6 +54,13 @@ def template(kind, params=None):
         elif kind == 'lit':
             src = ('<dtml-in s start=%d end=%d size=%d orphan=%d overlap=%d>'
                    '%s<dtml-else>EMPTY</dtml-in>' % (params + (BODY,)))
+        elif kind == 'varnum':
+            # rows identified by their number: the elements themselves may
+            # be None or other false values
+            src = ('<dtml-in s start=st end=en size=sz orphan=orp overlap=ov>'
+                   '%s<dtml-else>EMPTY</dtml-in>' % BODY.replace(
+                       '<dtml-var sequence-item>',
+                       '<dtml-var sequence-number>'))
         elif kind in ('previous', 'next'):
             src = ('<dtml-in s %s start=st end=en size=sz orphan=orp '
                    'overlap=ov>{<dtml-var %s-sequence-start-number>;'
@@ -66,9 +73,19 @@ def template(kind, params=None):
     return t
 
 
+FALSY = (None, 0, '', 0.0, (), None, False)
+
+
 def render(L, start, end, size, orphan, overlap, mode):
     seq = list(range(1, L + 1))
+    if mode.endswith('falsy'):
+        seq = [FALSY[(i * 3) % len(FALSY)] for i in range(L)]
+        mode = {'falsy': 'varnum', 'next-falsy': 'next',
+                'previous-falsy': 'previous'}[mode]
     try:
+        if mode == 'varnum':
+            return template('varnum')(s=seq, st=start, en=end, sz=size,
+                                      orp=orphan, ov=overlap)
         if mode == 'lit':
             return template('lit', (start, end, size, orphan, overlap))(s=seq)
         if mode == 'str':
@@ -107,6 +124,10 @@ def check(case):
     """None when the property holds, else (bucket, message)."""
     L, start, end, size, orphan, overlap, mode = case
     out = render(L, start, end, size, orphan, overlap, mode)
+    if mode in ('next-falsy', 'previous-falsy'):
+        case = case[:6] + [mode.split('-')[0]]
+        r = check_flag_form(case, out)
+        return (r[0] + ':falsy-elements', r[1]) if r else None
     if isinstance(out, Exception):
         where = []
         if start > 0:
@@ -329,6 +350,12 @@ def run_shard(shard):
                 modes.append('previous')
             elif k == 3:
                 modes.append('next')
+            elif k == 4:
+                modes.append('falsy')
+            elif k == 5:
+                modes.append('next-falsy')
+            elif k == 6:
+                modes.append('previous-falsy')
             for mode in modes:
                 case = [L, start, end, size, orphan, overlap, mode]
                 bad = check(case)
